@@ -32,4 +32,4 @@ pub fn scenario(id: &str) -> Option<Box<dyn Scenario>> {
     }
 }
 
-pub const ALL: [&str; 1] = ["C05"];
+pub const ALL: [&str; 12] = ["C05", "C08", "C09", "C10", "C11", "C12", "C13", "C14", "C16", "C17", "C18", "C19"];
